@@ -94,6 +94,13 @@ SEARCH_OPS = ("slice_auto", "slice_reconf", "slice_reconf_forest", "anneal_slice
 
 
 def apply_op(tree, net, op):
+    # some public operations draw from the process-global generators (C17 finding 7l); pin them per
+    # op so that a history replays exactly
+    import random as _random
+
+    import numpy as _np
+    _random.seed(op["seed"])
+    _np.random.seed(op["seed"] % (2 ** 32))
     try:
         return _apply_op(tree, net, op)
     except Rejected:
